@@ -100,4 +100,40 @@ Proof.
   apply (G (cinit ust k q0)).
 Qed.
 
+(* any property of the queue component that its three kinds of moves preserve holds in every channel run *)
+Section QInv.
+Variable P : ust -> Prop.
+Hypothesis Pstep : forall x t, P x -> P (ustep x t).
+Hypothesis Pstart : forall x t o, P x -> P (ustart x t o).
+Hypothesis Prel : forall x t, P x -> P (urelease x t).
+
+Lemma qinv_cexec (s : cst ust) e : P (q ust s) -> P (q ust (cexec s e)).
+Proof.
+  intros H. destruct e as [t|t o]; cbn.
+  - unfold cstep. destruct (cthr ust s t) eqn:E.
+    + exact H.
+    + destruct (uidle Q _ t); [unfold after_send; destruct (qres _ _ _); try destruct (wake_rule _)|]; cbn [q mk]; auto.
+    + destruct (wstep (m ust s) w) as [m' [w'|]]; cbn [q mk]; exact H.
+    + destruct (uidle Q _ t); [unfold after_cons; destruct (qres _ _ _)|]; cbn [q mk]; auto.
+    + destruct (uidle Q _ t); [unfold after_cons; destruct (qres _ _ _)|]; cbn [q mk]; auto.
+    + destruct (keep _ _); cbn; exact H.
+    + destruct r; cbn; try exact H; [destruct (wakers _ _)|destruct (wlock _)]; cbn; exact H.
+    + destruct (notified _ _); cbn; exact H.
+    + destruct (j <? k)%nat; cbn; exact H.
+    + cbn. exact H.
+    + destruct (wstep (m ust s) w) as [m' [w'|]]; cbn [q mk]; [exact H|]. rewrite q_cancel_nextZ. exact H.
+    + destruct (uidle Q _ t); [destruct (qres _ _ _)|]; cbn [q mk]; auto.
+    + destruct (uidle Q _ t); cbn [q mk]; auto.
+  - unfold cstart. destruct (cthr ust s t); try exact H.
+    destruct o; cbn [q mk setpc]; auto. rewrite q_cancel_nextZ. exact H.
+Qed.
+
+Theorem zc_q_invariant q0 cevs : P q0 -> P (q ust (fold_left cexec cevs (cinit ust k q0))).
+Proof.
+  intros H0. assert (G : forall s, P (q ust s) -> P (q ust (fold_left cexec cevs s))).
+  { induction cevs as [|e cevs IH]; intros s Hs; [exact Hs|]. cbn [fold_left]. apply IH. now apply qinv_cexec. }
+  apply G. exact H0.
+Qed.
+End QInv.
+
 End ChanZProps.
